@@ -102,6 +102,7 @@ def run(chk, repo, tier):
     C02b.run_b20(chk, repo)
     C02b.run_b21_b22(chk, repo)
     C02b.run_b23(chk, repo)
+    C02b.run_b25(chk, repo)
     # the $OMEGA writer is shared with C04: the order of its scale conversions decides what the generated record means
     from rules.C04b import run_p13_p15, run_p19_p20
     run_p13_p15(chk, repo)
